@@ -33,3 +33,70 @@ Proof.
   destruct (fgc_zero_grad _ false) as [s1 u|s1 e]; cbn [sbind]; reflexivity.
 Qed.
 End GB.
+
+(* which clipping norm do the coefficients of the second pass use?  state: (module.max_grad_norm, optimizer.max_grad_norm, the norm
+   get_clipping_coef read); `upd` is the value computed by the adaptive update.  The noise is always optimizer.max_grad_norm * sigma. *)
+Definition bound_step {B} (upd : B) (st : B * B * option B) (o : gop) : B * B * option B :=
+  let '(mb, ob, cb) := st in
+  match o with
+  | GSyncModuleBound => (ob, ob, cb)
+  | GSetModuleBound => (upd, ob, cb)
+  | GSetOptimizerBound => (mb, upd, cb)
+  | GClipCoef => (mb, ob, Some mb)
+  | _ => st
+  end.
+(* whatever the module's own copy was (set at wrap time; a grad clip scheduler or a second make_private moves only the optimizer's),
+   the coefficients are computed with the optimizer's norm -- the one the noise is calibrated to *)
+Theorem ghost_clips_with_optimizer_bound {B} (mb ob upd : B) :
+  fold_left (bound_step upd) ghost_backward_ops (mb, ob, None) = (ob, ob, Some ob).
+Proof. reflexivity. Qed.
+Theorem ghost_adaptive_clips_with_updated_bound {B} (mb ob upd : B) :
+  fold_left (bound_step upd) ghost_adaptive_backward_ops (mb, ob, None) = (upd, upd, Some upd).
+Proof. reflexivity. Qed.
+(* the statement list without the synchronisation reads the module's stale copy *)
+Theorem ghost_unsynced_refuted : exists (mb ob : nat),
+  fold_left (bound_step 0%nat) (filter (fun o => match o with GSyncModuleBound => false | _ => true end) ghost_backward_ops) (mb, ob, None)
+  <> (ob, ob, Some ob).
+Proof. exists 1%nat, 2%nat. vm_compute. discriminate. Qed.
+
+
+(* the value of the second loss.  get_clipping_coef returns a vector of shape [B]; the per-sample losses are either a vector [B] or a column
+   [B, 1] (MSELoss / BCEWithLogitsLoss on one output unit, the shape the class documents).  torch broadcasting: [B] * [B] is the elementwise
+   product, [B] * [B, 1] is the B x B outer product, [B, 1] * [B, 1] is elementwise again. *)
+From Coq Require Import Reals Lra.
+Local Open Scope R_scope.
+Inductive layout := LVec | LCol.
+Fixpoint rsum (l : list R) : R := match l with [] => 0 | x :: r => x + rsum r end.
+Fixpoint rdot (c l : list R) : R := match c, l with x :: c', y :: l' => x * y + rdot c' l' | _, _ => 0 end.
+Definition bcast_sum (lc ll : layout) (c l : list R) : R :=
+  match lc, ll with
+  | LVec, LCol => rsum (map (fun li => rsum (map (fun cj => cj * li) c)) l)      (* outer product, summed *)
+  | _, _ => rdot c l
+  end.
+(* state: layout of coeff, value of second_loss *)
+Definition shape_step (ll : layout) (c l : list R) (st : layout * option R) (o : gop) : layout * option R :=
+  match o with
+  | GClipCoef => (LVec, snd st)
+  | GShapeCoef => (ll, snd st)                      (* reshape([-1] + [1] * (dim - 1)): the losses' own layout *)
+  | GSecondSum => (fst st, Some (bcast_sum (fst st) ll c l))
+  | _ => st
+  end.
+(* on the generated statement lists the second loss is sum_i c_i * loss_i for both layouts of the losses, plain and adaptive *)
+Theorem second_loss_is_weighted_sum (ll : layout) (c l : list R) :
+  snd (fold_left (shape_step ll c l) ghost_backward_ops (LVec, None)) = Some (rdot c l) /\
+  snd (fold_left (shape_step ll c l) ghost_adaptive_backward_ops (LVec, None)) = Some (rdot c l).
+Proof. destruct ll; split; reflexivity. Qed.
+(* without the reshape a column of losses is multiplied by (sum of ALL coefficients): no per-sample clipping *)
+Lemma rsum_scale (c : list R) y : rsum (map (fun cj => cj * y) c) = rsum c * y.
+Proof. induction c as [|x c IHc]; cbn [map rsum]; [ring | rewrite IHc; ring]. Qed.
+Lemma outer_sum (c l : list R) : bcast_sum LVec LCol c l = rsum c * rsum l.
+Proof.
+  unfold bcast_sum. induction l as [|y l IH]; cbn [map rsum]; [ring|]. rewrite IH.
+  rewrite rsum_scale. ring.
+Qed.
+Theorem second_loss_unshaped_refuted : exists c l,
+  snd (fold_left (shape_step LCol c l) (filter (fun o => match o with GShapeCoef => false | _ => true end) ghost_backward_ops) (LVec, None)) <> Some (rdot c l).
+Proof.
+  exists [1; 0], [0; 1]. unfold ghost_backward_ops. cbn [filter fold_left shape_step fst snd]. rewrite outer_sum. cbn [rsum rdot].
+  intros H. injection H as H1. nra.
+Qed.
